@@ -64,6 +64,8 @@ pub enum Error {
     NotEnoughVariantValues { path_hint: String },
     #[error("at path {path_hint:?}: enum must have at least two enum values")]
     NotEnoughEnumValues { path_hint: String },
+    #[error("at path {path_hint:?}: enum values must be distinct")]
+    DuplicateEnumValue { path_hint: String },
     #[error("at path {path_hint:?}: missing mandatory value")]
     MandatoryValueMissing { path_hint: String },
     #[error("at path {path_hint:?}: failed to convert number, not {}", .expected_type_hint)]
